@@ -166,6 +166,20 @@ pub fn gen(out: &mut dyn Write, family: &str, thorough: bool, seed: u64) {
             let k = r.below(dict.len());
             dict.swap(0, k);
         }
+        // a dictionary that lists a word twice (next to itself, or with other words in between): the library refuses it today; should it
+        // ever accept it, the model must still count each word's weight once per occurrence in a text
+        if i % 9 == 4 && !dict.is_empty() {
+            let w = dict[0].clone();
+            if i % 2 == 0 || dict.len() == 1 {
+                dict.push(w);
+            } else {
+                dict.insert(1, w.clone());
+                dict.push(w);
+            }
+            if dict.len() == 2 && i % 4 == 0 {
+                dict.insert(1, "重複".into());
+            }
+        }
         // tag dictionary: some corpus tokens and some dictionary-only tokens, with tags
         let mut tagdict: Vec<String> = vec![];
         if family == "C12" || r.chance(1, 3) {
@@ -179,7 +193,10 @@ pub fn gen(out: &mut dyn Write, family: &str, thorough: bool, seed: u64) {
                 tagdict.push(format!("{}{}", esc(&w), tags));
             }
         }
+        // solver numbers from 100 on: the L1-regularised solvers with cost 0.1 (rare classes end up without any weight: bias and
+        // weight vectors that end in zeros), on the corpora with more than eight tag classes
         let solver = match family {
+            "C11" if kind == 6 => [105u8, 106, 5, 1][(i / 7) % 4],
             "C11" => (i % 8) as u8,
             _ => *r.pick(&[1u8, 1, 5, 6, 0]),
         };
